@@ -31,6 +31,8 @@ SLIM = {'leaf_kinds': ['none', 'bool', 'int', 'float', 'str'], 'key_kinds': ['st
 TINY = {'leaf_kinds': ['int'], 'key_kinds': ['str', 'int'], 'specials': [], 'lits': ['true']}
 ARITY = {'leaf_kinds': ['int', 'str'], 'key_kinds': ['str'], 'specials': [], 'lits': ['k', 'j']}
 FALSY = {'leaf_kinds': ['none', 'bool', 'int', 'str'], 'key_kinds': ['str'], 'specials': [], 'lits': ['']}
+# dict keys that are special floats, both infinities among them (their key strings are JSON keywords), next to those strings
+INFKEYS = {'leaf_kinds': ['int'], 'key_kinds': ['float', 'str'], 'specials': [-0.0, float('inf'), -float('inf')], 'lits': ['Infinity', '-Infinity']}
 SPELLINGS = ['abs', 'rel', 'dot', 'slashes', 'trailing', 'dotdot', 'bytes', 'pathlike']
 
 
@@ -48,6 +50,8 @@ def families(tier):
         {'name': 'bf-next-build', 'params': {'depth': 1, 'width': 1, 'shape': FALSY, 'kw': False, 'spellings': ['abs']}, 'weight': 2},
         # 0-2 positional arguments next to keyword arguments (a positional string may spell the keyword's name)
         {'name': 'sb-same-build', 'params': {'depth': 0, 'width': 0, 'shape': ARITY, 'kw': True, 'arity': True}, 'weight': 1},
+        {'name': 'sb-same-build', 'params': {'depth': 1, 'width': 1, 'shape': INFKEYS, 'kw': False, 'containers': ['dict'], 'infkeys': True}, 'weight': 1},
+        {'name': 'sb-next-build', 'params': {'depth': 1, 'width': 2, 'shape': INFKEYS, 'kw': False, 'containers': ['dict'], 'infkeys': True}, 'weight': 1},
         {'name': 'sb-next-build', 'params': {'depth': 0, 'width': 0, 'shape': ARITY, 'kw': True, 'arity': True}, 'weight': 1},
         {'name': 'bf-next-build', 'params': {'depth': 0, 'width': 0, 'shape': ARITY, 'kw': True, 'arity': True, 'spellings': ['abs']}, 'weight': 1},
     ]
